@@ -55,8 +55,12 @@ let cmd_isscon t =
   match new_tx_issuance asset token prec c with
   | None -> Printf.printf "res=err\n"
   | Some ie ->
+    (* outside wf_contract (escape-free ASCII, numbers below 2^53) the document is not modelled *)
+    let chash = match c with
+      | Some ct when not (wf_contract ct) -> "unmodelled"
+      | _ -> hex_of_bytes ie.ie_chash in
     Printf.printf "res=ok chash=%s amount=%s token=%s nonce=%s entropy=%s precision=%s\n"
-      (hex_of_bytes ie.ie_chash) (hex_of_bytes ie.ie_iss.iss_amount) (hex_of_bytes ie.ie_iss.iss_token)
+      chash (hex_of_bytes ie.ie_iss.iss_amount) (hex_of_bytes ie.ie_iss.iss_token)
       (hex_of_bytes ie.ie_iss.iss_nonce) (hex_of_bytes ie.ie_iss.iss_entropy) (dec_of_n ie.ie_precision)
 
 let read_addr t : iss_addr =
